@@ -557,6 +557,26 @@ type c18DefinedTimeSlice struct {
 	Host c18Str      `avp:"Origin-Host"`
 }
 
+// anonymous structs embedded three, four and five levels deep, several tagged fields at the bottom
+type C18Ident struct {
+	Host  string `avp:"Origin-Host"`
+	Realm string `avp:"Origin-Realm"`
+	RC    uint32 `avp:"Result-Code"`
+}
+type C18Routing struct{ C18Ident }
+type C18Session struct {
+	C18Routing
+	Session string `avp:"Session-Id"`
+}
+type c18Deep3 struct{ C18Session }
+type C18Wrap4 struct{ C18Session }
+type c18Deep4 struct{ C18Wrap4 }
+type C18Wrap5 struct{ C18Wrap4 }
+type c18Deep5 struct {
+	C18Wrap5
+	Apps []uint32 `avp:"Auth-Application-Id"`
+}
+
 // many AVPs on ONE level (more than a dozen), with a code repeated many times: order is data
 type c18ManyOnOneLevel struct {
 	Host  string   `avp:"Origin-Host"`
@@ -833,6 +853,22 @@ func c18Statics() []c18Static {
 			at2 := at.Add(time.Hour)
 			return &c18DefinedTimeSlice{Ats: []c18DStamp{c18DStamp(at), c18DStamp(at2)}, Host: c18Str(h)},
 				[]refcodec.Node{tn, {Code: 55, Flags: 0x40, Payload: refcodec.TimeFromUnix(at2.Unix())}, strn(264, h)}, true
+		}},
+		{"embedded-three-to-five-levels-deep", func(v int) (interface{}, []refcodec.Node, bool) {
+			if v >= 9 {
+				return nil, nil, false
+			}
+			h, r, a := strs[1+v%2], strs[1+v/2%2], u32s[v%3]
+			id := C18Ident{h, r, a}
+			ses := C18Session{C18Routing{id}, "s" + h}
+			want := []refcodec.Node{strn(264, h), strn(296, r), u32n(268, a), strn(263, "s"+h)}
+			switch v / 3 {
+			case 0:
+				return &c18Deep3{ses}, want, true
+			case 1:
+				return &c18Deep4{C18Wrap4{ses}}, want, true
+			}
+			return &c18Deep5{C18Wrap5{C18Wrap4{ses}}, []uint32{a, 7}}, append(want, u32n(258, a), u32n(258, 7)), true
 		}},
 		{"many-avps-on-one-level", func(v int) (interface{}, []refcodec.Node, bool) {
 			if v >= 4 {
@@ -1210,7 +1246,7 @@ func runC18(ctx *ev.Ctx) {
 			}
 		}
 	}
-	ctx.Rule = "struct types built with reflect.StructOf: one field for each of 24 (AVP, holder family) rows - including fields declared with a go-diameter datatype other than the dictionary's, and a vendor-specific AVP whose must-not lists V - (including a vendor-specific AVP whose must attribute does not list V and a vendor-less one whose must does) (every scalar data type, a vendor-specific AVP, Float32/64, IPv4/6, IPFilterRule, QoSFilterRule from a generated dictionary) x each Go holder type (native scalar, datatype type, net.IP, []byte, time.Time) x wrapper {T, *T, []T, []*T} x nine tag forms (plain, omitempty, each with a second key before/after, other keys carrying their own ,omitempty option before/after) x values {boundary atoms; nil pointer; nil, empty, 1-, 2- and 4-element slices}; plus static shapes: nested struct, pointer to struct, slice of structs with omitempty members (an element or a pointed-to struct all of whose members are omitted still yields its - empty - Grouped AVP), slice of pointers, anonymous embedded struct (first, after a tagged field, in the middle, of an unexported type; two embedded structs declaring the same Go field names; an outer field shadowing an embedded one; untagged NAMED fields of struct / pointer-to-struct type whose types carry avp tags - not marshalled), application-defined types over string / uint32 / time.Time / datatype.Time / []byte as scalars, behind a pointer and as slice elements, 5 / 11 / 13 / 27 repetitions of one code next to other repeated codes on one level (order is data), group in group, AVP / *AVP / []*AVP / []AVP fields (the last also as a group member), optional group members held through pointers with omitempty (each of three members nil, pointing to 0, pointing to 7 - a non-nil pointer to the zero value is a present member), in a nested struct, a pointer to one and slices of both; the struct shapes also in a message carrying a private dictionary that defines every name used with another code, other flags and vendor ids (members of nested structs must be resolved through the message's dictionary too). Six tag names the default dictionary defines differently in two applications (vendor id, flags or data type) are marshalled into messages of the one application, the other, and the first again, in both orders, in one process. Every struct shape is marshalled a second time, with its string members changed and its ready-made []*AVP list (built by append, or with a capacity hint) shared, into a second message: the first message must not change. Every other case marshals into a message that already holds an AVP and has been marshalled into before. Oracle: the AVP bytes Marshal produces equal the AVPs built by hand from the reference dictionary entry (code, vendor id, M from must, V from vendor, typed value); Unmarshal directly and after Serialize+ReadMessage reproduces the field values (nil == empty for slices, times by second, floats by bits)."
+	ctx.Rule = "struct types built with reflect.StructOf: one field for each of 24 (AVP, holder family) rows - including fields declared with a go-diameter datatype other than the dictionary's, and a vendor-specific AVP whose must-not lists V - (including a vendor-specific AVP whose must attribute does not list V and a vendor-less one whose must does) (every scalar data type, a vendor-specific AVP, Float32/64, IPv4/6, IPFilterRule, QoSFilterRule from a generated dictionary) x each Go holder type (native scalar, datatype type, net.IP, []byte, time.Time) x wrapper {T, *T, []T, []*T} x nine tag forms (plain, omitempty, each with a second key before/after, other keys carrying their own ,omitempty option before/after) x values {boundary atoms; nil pointer; nil, empty, 1-, 2- and 4-element slices}; plus static shapes: nested struct, pointer to struct, slice of structs with omitempty members (an element or a pointed-to struct all of whose members are omitted still yields its - empty - Grouped AVP), slice of pointers, anonymous embedded struct (first, after a tagged field, in the middle, of an unexported type; two embedded structs declaring the same Go field names; an outer field shadowing an embedded one; untagged NAMED fields of struct / pointer-to-struct type whose types carry avp tags - not marshalled), anonymous structs embedded three, four and five levels deep with several tagged fields at the bottom, application-defined types over string / uint32 / time.Time / datatype.Time / []byte as scalars, behind a pointer and as slice elements, 5 / 11 / 13 / 27 repetitions of one code next to other repeated codes on one level (order is data), group in group, AVP / *AVP / []*AVP / []AVP fields (the last also as a group member), optional group members held through pointers with omitempty (each of three members nil, pointing to 0, pointing to 7 - a non-nil pointer to the zero value is a present member), in a nested struct, a pointer to one and slices of both; the struct shapes also in a message carrying a private dictionary that defines every name used with another code, other flags and vendor ids (members of nested structs must be resolved through the message's dictionary too). Six tag names the default dictionary defines differently in two applications (vendor id, flags or data type) are marshalled into messages of the one application, the other, and the first again, in both orders, in one process. Every struct shape is marshalled a second time, with its string members changed and its ready-made []*AVP list (built by append, or with a capacity hint) shared, into a second message: the first message must not change. Every other case marshals into a message that already holds an AVP and has been marshalled into before. Oracle: the AVP bytes Marshal produces equal the AVPs built by hand from the reference dictionary entry (code, vendor id, M from must, V from vendor, typed value); Unmarshal directly and after Serialize+ReadMessage reproduces the field values (nil == empty for slices, times by second, floats by bits)."
 	ctx.Assume = []string{"holder types are those for which the reflect code has a conversion path (AssignableTo / ConvertibleTo); Address holders carry IPv4 / IPv6 only"}
 }
 
